@@ -25,7 +25,7 @@ TRUSTED = [
     "deterministic entropy: crypto/rand.Reader is replaced during CreateWallet so that every replay creates the same wallet",
     "hooks (build tag verif): masswallet/hooks_verif.go accessors",
     "environment, not verified: mass-core (chain DB, script templates), goleveldb; a crash INSIDE leveldb.Write relies on LevelDB's journal (batch atomicity) and is not enumerated",
-    "modelled rather than verified: NtfnsHandler.Start (catch-up, fast-forward), processConnectedBlock, worker task resumption at record level (coq/Ledger/Crash.v)",
+    "modelled rather than verified: NtfnsHandler.Start (catch-up, fast-forward, the two repairs), processConnectedBlock, worker task resumption at record level (coq/Ledger/Crash.v, Crash3.v; with a restore in progress: coq/Ledger/ResumeFF.v)",
 ]
 
 
@@ -81,6 +81,7 @@ def main(tier, replay=None):
     traces = []
     foreign = {}
     scripts = {}
+    io_shapes = {}     # import-only family: shape -> histories
     harness_err = []
     with open(model_in, "w") as mf:
         for l in V.read_lines(out):
@@ -90,6 +91,11 @@ def main(tier, replay=None):
                 runs.append(l)
             elif l.startswith("V "):
                 traces.append(l)
+            elif l.startswith("S ") and " family=import-only " in l:
+                m = re.search(r"shape=(\S+) ff=(\S+) quiet-branch=(\S+)", l)
+                if m:
+                    k = m.group(1) + ("+grown-past-fast-forward-margin" if m.group(2) == "true" else "") + ("+quiet-branch" if m.group(3) == "true" else "")
+                    io_shapes[k] = io_shapes.get(k, 0) + 1
             elif l.startswith("S "):
                 f = l.split()
                 scripts[int(f[1])] = l
@@ -180,6 +186,7 @@ def main(tier, replay=None):
         "histories": len(scripts),
         "crashed_runs": ncrash,
         "crash_contexts": contexts,
+        "import_only_histories_by_shape": io_shapes,
         "divergences": ndiv,
         "model_queries": nq, "quiescent_queries_checked_against_spec": nquiet, "announcements_checked": nproc,
         "samples": [runs[:6]],
